@@ -141,7 +141,7 @@ func (st *State) intQuery(wantModel bool, extra ...*smt.Term) (smt.Result, map[s
 	st.w.Stats.IntQueries++
 	to := st.w.Opt.IntTimeoutMs
 	if to == 0 {
-		to = 30000
+		to = 120000
 	}
 	t0 := time.Now()
 	r, m, _ := smt.Race([]string{"cvc5", smt.DefaultZ3()}, script, time.Duration(to)*time.Millisecond)
